@@ -123,6 +123,7 @@ def fixpoint(specs, links):
     """least fixpoint of derivable exchange items; returns (set of items, names of components with a missing item)
     specs: [(name, ins, outs, start)], links: [((src, out), (dst, in))]"""
     sp = {s[0]: s for s in specs}
+    links = [(l[0], l[1]) for l in links]
     src = {(b, i): (a, o) for (a, o), (b, i) in links}
     cons = collections.defaultdict(list)
     for (a, o), (b, i) in links:
@@ -169,7 +170,7 @@ def fixpoint(specs, links):
 def expected_value(specs, links, X, i, memo=None):
     """initial value an input must receive if everything is derivable"""
     sp = {s[0]: s for s in specs}
-    src = {(b, ii): (a, o) for (a, o), (b, ii) in links}
+    src = {(l[1][0], l[1][1]): (l[0][0], l[0][1]) for l in links}
     Y, yo = src[(X, i)]
     for o, im, dm in sp[Y][2]:
         if o == yo:
@@ -184,9 +185,16 @@ def run_connect(specs, links, order, link_order, cache=True):
     CNode.cache = cache
     comps = {s[0]: CNode(*s) for s in specs}
     c = compose([comps[n] for n in order])
+    trunks = {}
     for li in link_order:
-        (a, o), (b, i) = links[li]
-        comps[a].outputs[o] >> comps[b].inputs[i]
+        (a, o), (b, i) = links[li][0], links[li][1]
+        if len(links[li]) > 2:  # fan-out behind a shared pass-through adapter
+            key = (a, o, links[li][2])
+            if key not in trunks:
+                trunks[key] = comps[a].outputs[o] >> fm.adapters.Scale(1.0)
+            trunks[key] >> comps[b].inputs[i]
+        else:
+            comps[a].outputs[o] >> comps[b].inputs[i]
     try:
         c.connect()
         out = ("ok",)
